@@ -14,8 +14,8 @@ thread any API call (`call`), so every program is covered.
 
 The model follows the code as written: `insert` publishes in the map first and adjusts
 `current_cost` later, outside the lock (old cost subtracted before the new cost is added);
-`remove` subtracts after the lock; `clear` stores 0 while holding every shard lock; the
-capacity pass subtracts what the POLICY reported, not what it removed.
+`remove` subtracts after the lock; `clear` subtracts the cost of what it removed while holding every
+shard lock; the capacity pass subtracts what the POLICY reported, not what it removed.
 Ghost state: linearization history `hist`, removal log, key domain `dom`, `drift`/`dirty`.
 -/
 namespace Fv.Cache.Conc
@@ -338,13 +338,14 @@ def stepOiAdd (s : State) (t : Nat) : Option State :=
                                   hist := s.hist ++ [.ret t (some v)] }
   | _ => none
 
-/-- `clear`: every shard write lock held; maps emptied, `current_cost.store(0)`. The event
-buffers are NOT emptied. -/
-def stepClear (c : Cfg) (s : State) (t : Nat) : Option State :=
+/-- `clear`: every shard write lock held; maps emptied and the cost of exactly the entries removed
+subtracted from `current_cost` (one `fetch_sub` while the locks are still held; since /repo commit
+7e5c084 — before it, `clear` stored 0 and lost the adjustments in-flight operations still owed). The
+event buffers are NOT emptied. -/
+def stepClear (s : State) (t : Nat) : Option State :=
   match s.pc t with
   | .clr =>
-    some { s with map := fun _ => none, cur := 0,
-                  drift := pendingAdj c s, dirty := s.dirty || decide (pendingAdj c s ≠ 0),
+    some { s with map := fun _ => none, cur := s.cur - residentCost s,
                   pc := upd s.pc t (.done none), hist := s.hist ++ [.clear t, .ret t none] }
   | _ => none
 
@@ -482,7 +483,7 @@ def step (c : Cfg) (s : State) (t : Nat) : Label → Option State
   | .oiMap => stepOiMap s t
   | .oiEv => stepOiEv c s t
   | .oiAdd => stepOiAdd s t
-  | .clear => stepClear c s t
+  | .clear => stepClear s t
   | .mLock => stepMLock s t
   | .recv => stepRecv s t
   | .admit d => stepAdmit s t d
